@@ -323,8 +323,12 @@ def make_pair(case):
 
 
 def run_impl(case):
-    """under every ambient setting: verdict, kind, path of the reported pair, in both argument orders"""
     a, b = make_pair(case)
+    return observe(a, b)
+
+
+def observe(a, b):
+    """under every ambient setting: verdict, kind, path of the reported pair, in both argument orders"""
     ea, eb = extract(a), extract(b)
     out = []
     for name, layers, _coq, preds in GRID:
@@ -346,6 +350,115 @@ def run_impl(case):
             o["py_equal"] = filtered_py(a, preds) == filtered_py(b, preds)
         out.append(o)
     return ea, eb, out
+
+
+# ---------------------------------------------------------------------------------------------- histories
+HBASE = ("tag", "", "root", [],
+         [("tag", "", "a", [("", "k", "v"), ("", "x", "1"), ("u", "m", "9")], [("text", "t"), ("tag", "", "b", [("", "n", "0")], [])]),
+          ("tag", "", "c", [], [])])
+# (kind, path, key, value, prefetch the Attribute object before the first comparison)
+HEDITS = [
+    ("Attribute.value =", [0, 1], ["", "n"], "1", False),
+    ("Attribute.value =", [0], ["", "x"], "2", True),
+    ("attributes[key] =", [0], ["", "k"], "w", False),
+    ("attributes[new key] =", [1], ["", "new"], "1", False),
+    ("Attribute.local_name =", [0], ["", "x"], "xx", True),
+    ("Attribute.namespace =", [0], ["", "k"], "w", False),
+    ("del attributes[key]", [0], ["u", "m"], None, False),
+    ("TextNode.content =", [0, 0], None, "changed", False),
+    ("append_children(text)", [1], None, "T", False),
+    ("append_children(element)", [0, 1], None, None, False),
+    ("detach()", [0, 1], None, None, False),
+]
+
+
+def akey(key):
+    return key[1] if not key[0] else (key[0], key[1])
+
+
+def node_at(root, path):
+    with altered_default_filters():
+        n = root
+        for i in path:
+            n = n[i]
+        return n
+
+
+def apply_hedit(e, n, att):
+    kind, value = e["kind"], e.get("value")
+    if kind == "Attribute.value =":
+        (att if att is not None else n.attributes[akey(e["key"])]).value = value
+    elif kind == "Attribute.local_name =":
+        (att if att is not None else n.attributes[akey(e["key"])]).local_name = value
+    elif kind == "Attribute.namespace =":
+        (att if att is not None else n.attributes[akey(e["key"])]).namespace = value
+    elif kind in ("attributes[key] =", "attributes[new key] ="):
+        n.attributes[akey(e["key"])] = value
+    elif kind == "del attributes[key]":
+        del n.attributes[akey(e["key"])]
+    elif kind == "TextNode.content =":
+        n.content = value
+    elif kind == "append_children(text)":
+        with altered_default_filters():
+            n.append_children(value)
+    elif kind == "append_children(element)":
+        with altered_default_filters():
+            n.append_children(impl.tag("new"))
+    elif kind == "detach()":
+        n.detach()
+    else:
+        raise ValueError(kind)
+
+
+def run_history(h):
+    """compare, edit one of the two trees through the API on node objects taken before the first comparison, compare
+    again on the same objects ...; returns [(step description, (ea, eb, obs))]"""
+    def mk():
+        return build(h["base"]) if h["route"] == "api" else Document(impl.to_xml(h["base"])).root
+    a = mk()
+    b = a.clone(deep=True) if h.get("b") == "clone" else mk()
+    trees = {"a": a, "b": b}
+    held = []
+    for e in h["edits"]:
+        n = node_at(trees[e["side"]], e["path"])
+        att = n.attributes[akey(e["key"])] if (e.get("prefetch") and e["kind"].startswith("Attribute.")) else None
+        held.append((n, att))
+    out = [("initial", observe(a, b))]
+    for e, (n, att) in zip(h["edits"], held):
+        apply_hedit(e, n, att)
+        out.append(("%s on %s" % (e["kind"], e["side"]), observe(a, b)))
+    return out
+
+
+def hedit(kind, path, key, value, prefetch, side):
+    return {"kind": kind, "path": path, "key": key, "value": value, "prefetch": prefetch, "side": side}
+
+
+def fixed_histories():
+    hs = []
+    for route in ("parse", "api"):
+        for bkind in ("clone", "rebuilt"):
+            # one history per editing route: edit b (trees differ), the same edit on a (trees agree again)
+            for ed in HEDITS:
+                hs.append({"base": HBASE, "route": route, "b": bkind,
+                           "edits": [hedit(*ed, side="b"), hedit(*ed, side="a")]})
+        # and one long history through all routes, alternating the sides
+        edits = []
+        for i, ed in enumerate(HEDITS[:9]):
+            first, second = ("b", "a") if i % 2 == 0 else ("a", "b")
+            edits += [hedit(*ed, side=first), hedit(*ed, side=second)]
+        hs.append({"base": HBASE, "route": route, "b": "clone", "edits": edits})
+    return hs
+
+
+def random_history(rng):
+    eds = [ed for ed in rng.sample(HEDITS[:9], rng.choice([2, 3, 4]))]
+    eds.sort(key=HEDITS.index)
+    edits = []
+    for ed in eds:
+        sides = rng.choice([["a"], ["b"], ["a", "b"], ["b", "a"]])
+        edits += [hedit(ed[0], ed[1], ed[2], ed[3], rng.random() < 0.5, sd) for sd in sides]
+    return {"base": HBASE, "route": rng.choice(["parse", "api"]), "b": rng.choice(["clone", "rebuilt"]), "edits": edits}
 
 
 def wf_tree(t):
@@ -375,19 +488,27 @@ def decode_obs(vals):
 
 def check_cases(ctx, cases):
     runs = []
+    flat = []
     with no_gc():
         for c in cases:
             try:
-                ea, eb, obs = run_impl(c)
+                if c.get("history") is not None:
+                    steps = run_history(c["history"])
+                    results = [(dict(c, kind="history: " + what, route="history:" + c["history"]["route"], step=i), r)
+                               for i, (what, r) in enumerate(steps)]
+                else:
+                    results = [(c, run_impl(c))]
             except Exception as e:  # noqa: BLE001
-                ctx.fail("compare_trees (or building the trees) raised %s: %s" % (type(e).__name__, e), c)
-                runs.append(None)
+                ctx.fail("compare_trees (or building / editing the trees) raised %s: %s" % (type(e).__name__, e), c)
                 continue
-            if not (wf_tree(ea) and wf_tree(eb)):
-                ctx.count(1, "outside domain (duplicate presented attribute keys)")
-                runs.append(None)
-                continue
-            runs.append((ea, eb, obs))
+            for cc, (ea, eb, obs) in results:
+                flat.append(cc)
+                if not (wf_tree(ea) and wf_tree(eb)):
+                    ctx.count(1, "outside domain (duplicate presented attribute keys)")
+                    runs.append(None)
+                    continue
+                runs.append((ea, eb, obs))
+    cases = flat
     terms = ["obs %s %s %s" % (COQ_GRID, cnode(r[0]), cnode(r[1])) for r in runs if r is not None]
     vals = ctx.coq_eval("c17", REQ, terms, chunk=60)
     vi = 0
@@ -405,6 +526,9 @@ def check_cases(ctx, cases):
             ctx.count(1, "%s / %s" % (c.get("kind", "?"), "equal" if spec else "different"))
             case = {"a": ea, "b": eb, "filter": name, "route": c.get("route", "api"), "kind": c.get("kind"),
                     "path": c.get("path")}
+            if c.get("history") is not None:
+                case["history"] = c["history"]
+                case["step"] = c.get("step")
             if ea != eb:
                 ctx.nontrivial_case((ea, eb, name))
             # correspondence: model = implementation (verdict, kind, path), both orders
@@ -485,7 +609,11 @@ def run(ctx, args):
         with open(args.replay) as f:
             rep = json.load(f)
         case = rep.get("case")
-        if case:
+        if case and case.get("history"):
+            h = case["history"]
+            h["base"] = tuple_tree(h["base"])
+            check_cases(ctx, [{"history": h, "kind": "history"}])
+        elif case:
             check_cases(ctx, [{"a": tuple_tree(case["a"]), "b": tuple_tree(case["b"]),
                                "route": case.get("route") if str(case.get("route", "")).startswith("xml") else "api",
                                "kind": case.get("kind"), "path": case.get("path")}])
@@ -493,6 +621,11 @@ def run(ctx, args):
     quick = ctx.tier == "quick"
     rng = ctx.rng
     cases = []
+    # (0) histories: compare, edit either tree through an API route on node objects taken before, compare again
+    for h in fixed_histories():
+        cases.append({"history": h, "kind": "history"})
+    for _ in range(10 if quick else 300):
+        cases.append({"history": random_history(rng), "kind": "history"})
     # (1) every single-point mutation at every position of fixed trees that contain all node kinds at three depths
     for t in BASES:
         ms = list(all_mutants(t))
@@ -545,7 +678,10 @@ def run(ctx, args):
              "added/removed/changed, unwrap, swap, node kind change) at any depth; the same through an XML route in which "
              "every namespace is bound to a prefix (un-namespaced attributes on namespaced elements, alone and next to the "
              "same local name in the element's namespace); each pair under %d ambient filter settings "
-             "and in both argument orders. One evaluation = one (pair, filter setting). Non-trivial = the two trees differ; "
+             "and in both argument orders. Histories: the two trees (parsed or API-built; the second a deep clone or rebuilt) "
+             "are compared, then one of them is edited on node / Attribute objects taken before the first comparison "
+             "(Attribute.value / .local_name / .namespace, attributes[key] =, del, TextNode.content, append_children, detach), "
+             "compared again on the same objects, the same edit is made on the other tree, compared again. One evaluation = one (pair, filter setting). Non-trivial = the two trees differ; "
              "distinct by (tree a, tree b, filter setting)." % len(GRID))
 
 
